@@ -74,6 +74,17 @@ let () =
              | Some s -> emit s
              | None -> emit "! oob")
           else emit "??*"
+        | ["pstr"; h] ->
+          (* a string literal: the text is  "<content>"  ; the spec judges valid JSON literals only *)
+          let content = bytes_of_hex h in
+          if model then
+            (match result_text (parse (cstr ((z_of_int 34 :: content) @ [z_of_int 34]))) with
+             | Some s -> emit s
+             | None -> emit "! oob")
+          else
+            (match (if List.exists (fun b -> b = Z0) content then None else ref_string content) with
+             | Some v -> emit ("ok s" ^ hexs v)
+             | None -> emit "??*")
         | ["strip"; h] ->
           let s = cstr (bytes_of_hex h) in
           emit (hexs (if model then strip_comments s else reference_strip s))
@@ -86,7 +97,9 @@ let () =
             match result_text r with
             | Some s -> emit (Printf.sprintf "%d | %s %s" (if eq then 1 else 0) (hexs text) s)
             | None -> emit "! oob"
-          end else emit (if in_class v then "1" else "?")
+          end else
+            (* in the class: the flag is 1 and the tree read back is the canonical form of the tree *)
+            emit (if in_class v then "1 | ? ok " ^ String.concat " " (dump (canon v)) else "?")
         | ["chkpos"; h; l; c] ->
           if model then emit "-" else
           emit (if position_insideb (cstr (bytes_of_hex h)) (z_of_dec l) (z_of_dec c) then "1" else "0")
